@@ -238,3 +238,6 @@ func trunc(s string, n int) string {
 	}
 	return s
 }
+
+// Trunc shortens a string for reports.
+func Trunc(s string, n int) string { return trunc(s, n) }
